@@ -94,7 +94,7 @@ type fakeCmd struct {
 func (c *fakeCmd) VerifExited() bool { return c.exited }
 
 func (c *fakeCmd) closePipes() {
-	before := verif.Counter("outdone:" + c.name)
+	before := verif.CounterPrefix("outdone:")
 	n := 0
 	if c.out != nil {
 		c.out.Close()
@@ -105,7 +105,7 @@ func (c *fakeCmd) closePipes() {
 		n++
 	}
 	deadline := time.Now().Add(2 * time.Second)
-	for verif.Counter("outdone:"+c.name) < before+n && time.Now().Before(deadline) {
+	for verif.CounterPrefix("outdone:") < before+n && time.Now().Before(deadline) {
 		time.Sleep(20 * time.Microsecond)
 	}
 }
@@ -122,6 +122,7 @@ func (c *fakeCmd) exit(code int) {
 
 func (c *fakeCmd) Stop(sig int, _ bool) error {
 	verif.Obs("stop %s %d", c.name, sig)
+	c.h.stopLog = append(c.h.stopLog, c.name)
 	if c.alive {
 		cfg := c.h.cfg[c.name]
 		if sig == 9 {
@@ -204,6 +205,7 @@ type supH struct {
 	stopCtx map[string]*fakeCtx
 	cur     *verif.Thread
 	dead    bool
+	stopLog []string
 	// generator bookkeeping
 	apiN int
 }
